@@ -6,6 +6,5 @@ export GOFLAGS=-mod=mod GOPROXY=off
 export CGO_CPPFLAGS="$(llvm-config-14 --cppflags)"
 export CGO_CXXFLAGS=-std=c++14
 export CGO_LDFLAGS="$(llvm-config-14 --ldflags --libs --system-libs all)"
-export DDPPATH=$B/ddp
 export LOCPATH=$B/locale
 export TZ=UTC
